@@ -95,6 +95,10 @@ def gen(rng, tier):
         rng.shuffle(order)
         for coin in order:
             yield Case("xmrwallet", [("seed", "bip44")[r % 2], hx(x), "-", coin, 1 + r, 2, hx(pid)], "same-keys-every-network")
+    # private spend / view keys at every edge of the scalar range (little-endian; valid iff 0 < v < l), each network in turn
+    for j, v in enumerate((1, 2, L - 2, L - 1, L, L + 1, L + 2, 2**252, 2**252 - 1, 2**253 - 1, 2**253, 2**255 - 19, 2**255, 2**256 - 1, 0, 8 * L, 2 * L - 1)):
+        if v < 2**256:
+            yield Case("xmrwallet", ["spend", hx(v.to_bytes(32, "little")), "-", COINS[j % len(COINS)], 1, 2, hx(bytes(8))], "spend-key-edge")
     n = 60 if tier == "quick" else 2500
     for i in range(n):
         coin = COINS[i % len(COINS)]
